@@ -100,7 +100,23 @@ def tables(task):
         if isinstance(o, type) and issubclass(o, C.NbdimeConfigurable):
             classes[o.__name__] = sorted(o.class_traits(config=True))
     eps = {ep: cls.__name__ for ep, cls in C.entrypoint_configurables.items()}
-    return {'classes': classes, 'eps': eps}
+    # which dests each real parser defines itself (config lookup answering "no such entry point")
+    import nbdime.args as A
+    orig = A.get_defaults_for_argparse
+    def no_config(entrypoint): raise ValueError(entrypoint)
+    A.get_defaults_for_argparse = no_config
+    dests = {}
+    root = tempfile.mkdtemp(prefix='nbv_c19_')
+    try:
+        sandbox(root, {})
+        for ep in c19_stubs.EP_MAIN:
+            r = c19_stubs.capture(ep, [])
+            dests[ep] = sorted(r.get('ns', {}))
+    finally:
+        A.get_defaults_for_argparse = orig
+        os.chdir(START_CWD)
+        shutil.rmtree(root, ignore_errors=True)
+    return {'classes': classes, 'eps': eps, 'parser_dests': dests}
 
 
 def main():
